@@ -43,6 +43,13 @@ def impl(c):
         if not u2: break
         dh.legal_set_fire(set(u2))
     out["rounds"] = rounds
+    # a second game on the SAME object: hand-made transfers put vertices other than q in debt, then concentration and burn are asked again
+    if G["n"] >= 2:
+        dv = dh.configuration.divisor
+        for _ in range(rng.randint(1, 3)):
+            a, b = rng.sample(range(G["n"]), 2); dv.chip_transfer(names[a], names[b], rng.randint(1, 4) + max(0, common.div_to_list(G, dv)[a]))
+        D2 = common.div_to_list(G, dv); dh.send_debt_to_q(); conc2 = common.div_to_list(G, dh.configuration.divisor); u3, _ = dh.run()
+        out["again"] = {"D2": D2, "conc2": conc2, "unburnt2": sorted(idx[x] for x in u3)}
     if c.get("subsets"):
         from chipfiring.CFConfig import CFConfig
         cfg = CFConfig(common.build_impl_divisor(G, conc, rng=rng), names[c["q"]])
@@ -57,7 +64,9 @@ def model_lines(c, r):
     g = common.enc_graph(c["G"])
     if "exc" in r or not isinstance(r["ok"]["conc"], list): return [["info"] + g]
     return [["concok"] + g + [c["q"]] + common.enc_list(c["D"]) + common.enc_list(r["ok"]["conc"]),
-            ["burn"] + g + [c["q"]] + common.enc_list(r["ok"]["conc"])] + [["burn"] + g + [c["q"]] + common.enc_list(cfgb) for cfgb, _ in r["ok"].get("rounds", [])]
+            ["burn"] + g + [c["q"]] + common.enc_list(r["ok"]["conc"])] + [["burn"] + g + [c["q"]] + common.enc_list(cfgb) for cfgb, _ in r["ok"].get("rounds", [])] + \
+           ([["concok"] + g + [c["q"]] + common.enc_list(r["ok"]["again"]["D2"]) + common.enc_list(r["ok"]["again"]["conc2"]), ["burn"] + g + [c["q"]] + common.enc_list(r["ok"]["again"]["conc2"])]
+            if isinstance(r["ok"].get("again", {}).get("conc2"), list) and all(type(x) is int for x in r["ok"]["again"]["conc2"] + r["ok"]["again"]["D2"]) else [])
 
 def judge(c, r, mo):
     if "exc" in r: return [{"what": "implementation raised %s: %s" % (r["exc"], r.get("msg"))}]
@@ -78,6 +87,12 @@ def judge(c, r, mo):
         line = mo[2 + i]; kk = int(line[0]); U2 = sorted(int(x) for x in line[1:1 + kk])
         if u2 != U2: out.append({"what": "burn #%d on the same DharAlgorithm object returned %s for configuration %s (q=%d); its maximal legal firing set is %s" % (i + 2, u2, cfgb, c["q"], U2)}); break
     if "union_legal" in o and o["union_legal"] != U: out.append({"what": "union of all legal subsets (implementation's own test) is %s, run() returned %s, model %s" % (o["union_legal"], o["unburnt"], U)})
+    if "again" in o and len(mo) >= 4 + len(o.get("rounds", [])):
+        a = o["again"]; l1, l2 = mo[2 + len(o.get("rounds", []))], mo[3 + len(o.get("rounds", []))]
+        if l1[0] != "1": out.append({"what": "second concentration on the same DharAlgorithm object (after hand-made transfers) turned %s into %s: rejected by the verified checker conc_ok" % (a["D2"], a["conc2"])})
+        else:
+            kk = int(l2[0]); U3 = sorted(int(x) for x in l2[1:1 + kk])
+            if a["unburnt2"] != U3: out.append({"what": "second game on the same object: run() returned %s for %s, its maximal legal firing set is %s" % (a["unburnt2"], a["conc2"], U3)})
     return out
 
 def oracle(c, r):
@@ -97,6 +112,9 @@ def oracle(c, r):
             for S in O.subsets(others):
                 if O.legal(m, cfgb, S): un |= S
             if sorted(un) != u2: why.append("burn #%d on the same object: union of legal sets of %s is %s, returned %s" % (i + 2, cfgb, sorted(un), u2)); break
+        if "again" in o and not why:
+            a = o["again"]
+            if any(a["conc2"][v] < 0 for v in range(len(m)) if v != q) or not O.lin_equiv(m, a["D2"], a["conc2"]): why.append("second concentration on the same object: %s -> %s" % (a["D2"], a["conc2"]))
     return {"violates": bool(why), "why": why}
 
 def nontrivial(cases):
